@@ -1327,3 +1327,97 @@ func countedLoops(p *Prog, pkgs ...string) []countedLoop {
 	}
 	return out
 }
+
+// numberWidthRule: the converse of PARSED-NUMBER-FITS. A number parsed at a bit
+// size smaller than what its destination holds makes the parser refuse values
+// the field could carry: versions the ecosystem's tool accepts are rejected
+// (PyPI epoch parsed at 8 bits into an int: "256!1.0" fails). Reviewed
+// exceptions are listed with their reason.
+var narrowParseReviewed = map[string]string{
+	"semver.isNumeric: strconv.ParseInt #1": "NuGet holds prerelease numbers in an int32 (SemVer2 implementation of NuGet.Versioning); the narrower size reproduces its overflow-to-text behaviour",
+}
+
+func numberWidthRule(r *Report, p *Prog, rule string, pkgs ...string) int {
+	sizes := types.SizesFor("gc", "amd64")
+	if archOverride != "" {
+		if s := types.SizesFor("gc", archOverride); s != nil {
+			sizes = s
+		}
+	}
+	intBits := int(sizes.Sizeof(types.Typ[types.Int])) * 8
+	n := 0
+	for _, f := range p.Funcs {
+		if f.Pkg == nil || f.Blocks == nil {
+			continue
+		}
+		in := false
+		for _, pk := range pkgs {
+			if f.Pkg.Pkg.Path() == modPrefix+pk {
+				in = true
+			}
+		}
+		if !in {
+			continue
+		}
+		perFn := map[string]int{}
+		for _, b := range f.Blocks {
+			for _, ins := range b.Instrs {
+				call, ok := ins.(*ssa.Call)
+				if !ok {
+					continue
+				}
+				name := staticCalleeName(call)
+				if name != "strconv.ParseUint" && name != "strconv.ParseInt" {
+					continue
+				}
+				perFn[name]++
+				key := fmt.Sprintf("%s: %s #%d", fnKey(f), name, perFn[name])
+				bc, ok := call.Call.Args[2].(*ssa.Const)
+				if !ok || bc.Value == nil {
+					continue // reported by PARSED-NUMBER-FITS
+				}
+				n++
+				bits := int(bc.Int64())
+				if bits == 0 {
+					bits = intBits
+				}
+				// capacity of the narrowest destination
+				capacity, dest := 64, "the 64-bit result"
+				if refs := call.Referrers(); refs != nil {
+					for _, rf := range *refs {
+						ex, ok := rf.(*ssa.Extract)
+						if !ok || ex.Index != 0 || ex.Referrers() == nil {
+							continue
+						}
+						for _, u := range *ex.Referrers() {
+							cv, ok := u.(*ssa.Convert)
+							if !ok {
+								continue
+							}
+							tb, ok := cv.Type().Underlying().(*types.Basic)
+							if !ok || tb.Info()&types.IsInteger == 0 {
+								continue
+							}
+							c := int(sizes.Sizeof(tb)) * 8
+							if name == "strconv.ParseUint" && tb.Info()&types.IsUnsigned == 0 {
+								c--
+							}
+							if c < capacity {
+								capacity, dest = c, cv.Type().String()
+							}
+						}
+					}
+				}
+				switch {
+				case bits >= capacity:
+					r.ok(rule, key, p.pos(call.Pos()), fmt.Sprintf("parsed at bit size %d, destination %s holds %d bits", bits, dest, capacity))
+				case narrowParseReviewed[key] != "":
+					r.ok(rule, key, p.pos(call.Pos()), fmt.Sprintf("parsed at bit size %d, narrower than %s (%d bits): reviewed: %s", bits, dest, capacity, narrowParseReviewed[key]))
+				default:
+					r.bad(rule, key, p.pos(call.Pos()), fmt.Sprintf("the number is parsed at bit size %d although its destination (%s) holds %d bits: values the field can carry, and the ecosystem's tool accepts, make the parser fail with a range error", bits, dest, capacity))
+				}
+			}
+		}
+	}
+	return n
+}
